@@ -43,7 +43,17 @@ def long_runs(n, blank=' '):
 def corrupt(rng, lines, kind):
     """-> (new lines, planted must-reject class or None, position tag) or None if not applicable"""
     L = list(lines)
-    code_idx = [i for i, l in enumerate(L) if l.strip() and not l.strip().startswith(';')]
+    # positions outside conditional blocks (a fault planted inside an unselected branch is no fault), not on directives
+    depth_, open_ = 0, set()
+    for i_, l_ in enumerate(L):
+        t_ = l_.strip().split(None, 1)[0] if l_.strip() else ''
+        if t_ in ('#if', '#ifdef', '#ifndef'):
+            depth_ += 1
+        if depth_ > 0 or t_.startswith('#'):
+            open_.add(i_)
+        if t_ == '#endif':
+            depth_ = max(0, depth_ - 1)
+    code_idx = [i for i, l in enumerate(L) if l.strip() and not l.strip().startswith(';') and i not in open_]
     instr_idx = [i for i in code_idx if re.match(r'\s*(\w+:\s*)?(nop|q4|inr|nib|ldi|q12|tri|jmp|ldx|sel|mv2|lix|liy|bra)\b', L[i], re.I)
                  and not L[i].strip().startswith('.')]
     if not code_idx:
